@@ -7,7 +7,8 @@ depth whose complete state space stays below a per-profile budget (`explore_budg
 import itertools
 
 from .model import prim, ts, P
-from .machine import Profile, SpecMachine
+from .machine import Profile
+from .machine_ext import SpecMachineExt as SpecMachine
 from . import explore
 
 # family -> (machine feature flags, profile keyword overrides)
@@ -30,6 +31,7 @@ FAMILIES = {
     'F13-annotations': (('annotations',), dict()),
     'F14-patches': (('patches',), dict(max_files=2)),
     'F12b-attrs': (('routes', 'attrs'), dict(max_routes=2)),
+    'F12c-attrs-required': (('routes', 'attrs'), dict(max_routes=2, schema=1)),
 }
 
 IMPLEMENTED = None   # set by machine: families whose actions exist
@@ -46,6 +48,8 @@ def make_profile(fams, depth=8):
                 kw[k] = max(kw[k], v)
             else:
                 kw[k] = v
+    kw.setdefault('prims', (prim('Int32'),))
+    kw.setdefault('max_fields', 2 if ('defaults' in flags or 'examples' in flags) else 1)
     return Profile('+'.join(fams), flags, depth, **kw)
 
 
